@@ -208,15 +208,14 @@ buffer).**  The concrete model: snapshot layer of `Model/Snap.lean`, builder wit
 `Storage` with its free list, the glue with its 64 KiB buffer (`execOps`, `execBuild`).  Hypotheses:
 the object-size table agrees with the sizes the application uses and has no entry for the registry
 type or an extended type number (`TableOk`; true of `obj_size` of every protocol crate); every item
-the application adds has a valid type, a `u16` id, `i32` data and the size of its type (`EvOk`,
-`ItemOk`); nothing is said about ticks or the delivery schedule (any `i32` ticks, any acknowledgements
+the application adds has a valid type, a `u16` id, `i32` data and the size fixed for its
+`(type, id)` (`EvOk`, `ItemOk`); nothing is said about ticks or the delivery schedule (any `i32` ticks, any acknowledgements
 incl. forged ones, any losses).  Then a history either runs to the end — no panic in
 `Snap::recycle`, `Builder::add_item`, `Delta::create` (D15/D25), the size assertion of
 `Delta::write`, `delta_chunks`, `Storage` — or it panics and some packed delta was larger than the
-buffer `send_snapshots` reserves.  What keeps this from `C13_full`: sizes are per type rather than
-per `(type, id)`, and the buffer. -/
+buffer `send_snapshots` reserves.  What keeps this from `C13_full`: the buffer of the server glue. -/
 theorem sender_panics_only_on_buffer_overflow_partial (objSize : Nat → Option Nat)
-    (size : Tw.Snap.TypeId → Nat) (ht : TableOk objSize size)
+    (size : Tw.Snap.TypeId → Nat → Nat) (ht : TableOk objSize size)
     (evs : List (EvB Tw.Snap.Snap (List Item))) (hev : ∀ e, e ∈ evs → EvOk size e) :
     (∃ r, SysB.run (execOps objSize) execBuild {} evs = .ok r) ∨
     ((∃ s, SysB.run (execOps objSize) execBuild {} evs = .panic s) ∧ Oversize objSize) :=
@@ -258,12 +257,12 @@ theorem d25_witness :
 
 /-- **D25 repaired, in the concrete snapshot model.**  Since the repair every builder the sender
 uses continues the snapshot built before it (`Step.recycle`), so the snapshots the sender stores lie
-on one chain that starts with `Builder::new()`.  If the application gives every item the size of
-its type (`Step.add`; true of every protocol object), any earlier snapshot `a` and later snapshot `b`
+on one chain that starts with `Builder::new()`.  If the application gives every item the size it fixed for that
+`(type, id)` (`Step.add`), any earlier snapshot `a` and later snapshot `b`
 of the chain have agreeing raw item sizes — a UUID type keeps its raw number along the chain — and
 `Delta::create(a, b)` does not panic.  (`d25_witness` shows that this fails for unrelated fresh
 builders.) -/
-theorem recycled_builder_chain_never_refuses {size : Tw.Snap.TypeId → Nat} {a b : Tw.Snap.Builder}
+theorem recycled_builder_chain_never_refuses {size : Tw.Snap.TypeId → Nat → Nat} {a b : Tw.Snap.Builder}
     (h0 : Tw.Snap.Chain size Tw.Snap.Builder.new a) (h1 : Tw.Snap.Chain size a b) :
     Tw.Snap.SizesAgree a.snap.raw b.snap.raw ∧
       ∃ d, Tw.Snap.createDelta a.snap.raw b.snap.raw = some d :=
@@ -271,9 +270,9 @@ theorem recycled_builder_chain_never_refuses {size : Tw.Snap.TypeId → Nat} {a 
 
 -- non-vacuity: the 0.6 object-size table with any size function that extends it satisfies `TableOk`
 example : TableOk (fun t => (Tw.Gen.Snap.objSize_tw06.find? (·.1 == t)).map (·.2))
-    (fun tid => match tid with
-      | .ordinal o => ((Tw.Gen.Snap.objSize_tw06.find? (·.1 == o)).map (·.2)).getD 3
-      | .uuid _ => 3) where
+    (fun tid id => match tid with
+      | .ordinal o => ((Tw.Gen.Snap.objSize_tw06.find? (·.1 == o)).map (·.2)).getD (1 + id % 4)
+      | .uuid _ => 3 + id % 2) where
   registry := by decide
   extended := by
     intro t ht
@@ -287,7 +286,7 @@ example : TableOk (fun t => (Tw.Gen.Snap.objSize_tw06.find? (·.1 == t)).map (·
       rw [Tw.Snap.offsetExt_eq] at ht
       omega
   ordinal := by
-    intro o n _ _ h
+    intro o n id _ _ h
     simp only [h, Option.getD_some]
 
 -- non-vacuity: a lawful snapshot layer exists (snapshot = byte string, delta = the target itself),
